@@ -198,3 +198,54 @@ func verifC10WUpdate(max int) {
 
 func VerifC10WUpdate1() { verifC10WUpdate(1) }
 func VerifC10WUpdate2() { verifC10WUpdate(2) }
+
+// verifC10WUpdateTwo: one update operation naming two columns (a set or map column whose new value may equal the
+// current one, and the integer column): the new model holds exactly the requested values, the modify row names
+// exactly the columns that changed, and the peer-side application reproduces the new model.
+func verifC10WUpdateTwo(max int) {
+	dbm := fix.DBModelS1()
+	col := 5 + rt.Choose(2)
+	old := vSymRoot(col, max)
+	old.Num = rt.Int()
+	snap := vCloneRoot(old)
+	want := vCloneRoot(old)
+	val := vOvsValue(col, max, want)
+	want.Num = rt.Int()
+	op := &ovsdb.Operation{Op: ovsdb.OperationUpdate, Table: "Root", Row: ovsdb.Row{vColName(col): val, "num": want.Num}}
+	var mu ModelUpdates
+	err := mu.AddOperation(dbm, "Root", fix.U1, old, op)
+	rt.Reach("post-update")
+	rt.Assert(err == nil, "C10w2: well-typed update accepted")
+	rt.Assert(vColEq(col, old, snap) && old.Num == snap.Num, "C10w2: computing the differences does not alter the old model")
+	sameCol, sameNum := vColEq(col, snap, want), snap.Num == want.Num
+	m := mu.GetModel("Root", fix.U1)
+	if sameCol && sameNum {
+		rt.Assert(m == nil, "C10w2: no update recorded when nothing changes")
+		return
+	}
+	rt.Assert(m != nil, "C10w2: an update is recorded when a column changes")
+	if m == nil {
+		return
+	}
+	nm := m.(*fix.Root)
+	rt.Assert(vColEq(col, nm, want) && nm.Num == want.Num, "C10w2: the new model holds the requested value in every named column")
+	var modify *ovsdb.Row
+	_ = mu.ForEachRowUpdate("Root", func(uuid string, ru ovsdb.RowUpdate2) error {
+		modify = ru.Modify
+		return nil
+	})
+	rt.Assert(modify != nil, "C10w2: an update produces a modify row")
+	if modify == nil {
+		return
+	}
+	_, hasCol := (*modify)[vColName(col)]
+	_, hasNum := (*modify)["num"]
+	rt.Assert(hasCol == !sameCol && hasNum == !sameNum, "C10w2: the modify row names exactly the columns that changed")
+	peer := vCloneRoot(snap)
+	var mu2 ModelUpdates
+	rt.Assert(mu2.AddRowUpdate2(dbm, "Root", fix.U1, peer, ovsdb.RowUpdate2{Modify: modify}) == nil, "C10w2: peer applies the modify row")
+	pm := mu2.GetModel("Root", fix.U1)
+	rt.Assert(pm != nil && vColEq(col, pm.(*fix.Root), want) && pm.(*fix.Root).Num == want.Num, "C10w2: old + modify difference == new")
+}
+
+func VerifC10WUpdateTwo2() { verifC10WUpdateTwo(2) }
